@@ -44,14 +44,27 @@ def _load_file(filename):
 
 def clear_cache():
     _FILES.clear()
+    _BY_CODE.clear()
 
 
 def func_ast(fn):
     """FunctionDef / Lambda node for a python function object (or code object)"""
     code = fn.__code__ if hasattr(fn, "__code__") else fn
+    hit = _BY_CODE.get(code)
+    if hit is not None:
+        return hit
     filename = code.co_filename
-    if not os.path.exists(filename):
+    if filename not in _FILES and not os.path.exists(filename):
         raise SourceUnavailable("no source for %r (%s)" % (fn, filename))
+    r = _func_ast(fn, code, filename)
+    _BY_CODE[code] = r
+    return r
+
+
+_BY_CODE = {}
+
+
+def _func_ast(fn, code, filename):
     src, tree, index = _load_file(filename)
     if code.co_name == "<lambda>":
         cands = index.get(("lambda", code.co_firstlineno), [])
